@@ -93,33 +93,50 @@ theorem lookupK_sortK_mem {α} (k : Key) (v : α) (l : List (Key × α)) (hn : (
 
 /-! ### numbered children: up to ten of them are stored in numeric order -/
 
-theorem enumFrom_map_sorted (l : List PyTree) (h : l.length ≤ 10) :
-    sortK ((enumFrom 0 l).map fun (ia : Nat × PyTree) => (Key.n ia.1, ia.2))
-      = (enumFrom 0 l).map fun (ia : Nat × PyTree) => (Key.n ia.1, ia.2) := by
-  match l, h with
-  | [], _ => rfl
-  | [_], _ => rfl
-  | [_, _], _ => rfl
-  | [_, _, _], _ => rfl
-  | [_, _, _, _], _ => rfl
-  | [_, _, _, _, _], _ => rfl
-  | [_, _, _, _, _, _], _ => rfl
-  | [_, _, _, _, _, _, _], _ => rfl
-  | [_, _, _, _, _, _, _, _], _ => rfl
-  | [_, _, _, _, _, _, _, _, _], _ => rfl
-  | [_, _, _, _, _, _, _, _, _, _], _ => rfl
-  | _ :: _ :: _ :: _ :: _ :: _ :: _ :: _ :: _ :: _ :: _ :: _, h => by simp at h; omega
+/-- decimal strings of 0 … 9 are ordered like the numbers (kernel-checked) -/
+theorem keyLe_small : ∀ j < 10, ∀ i ≤ j, Key.le (.n (i : Nat)) (.n (j : Nat)) = true := by decide +kernel
 
-theorem enumFrom_map_snd {α β} (f : α → β) (k : Nat) (l : List α) :
-    (enumFrom k l).map (fun ia => (ia.1, f ia.2)) = enumFrom k (l.map f) := by
+/-- … but "10" sorts before "2" -/
+theorem keyLe_ten_two : Key.le (.n 10) (.n 2) = true ∧ Key.le (.n 2) (.n 10) = false := by decide +kernel
+
+theorem enumFrom_mem {α} (k : Nat) (l : List α) (ia : Nat × α) (h : ia ∈ enumFrom k l) :
+    k ≤ ia.1 ∧ ia.1 < k + l.length := by
   induction l generalizing k with
-  | nil => rfl
-  | cons a r ih => simp [enumFrom, ih]
+  | nil => simp [enumFrom] at h
+  | cons a r ih =>
+    simp only [enumFrom, List.mem_cons] at h
+    rcases h with rfl | h
+    · simp
+    · have := ih (k + 1) h
+      simp only [List.length_cons]
+      omega
+
+theorem numbered_pairwise {α} (f : α → PyTree) (k : Nat) (l : List α) (h : k + l.length ≤ 10) :
+    ((enumFrom k l).map fun ia => (Key.n ia.1, f ia.2)).Pairwise
+      (fun a b : Key × PyTree => Key.le a.1 b.1 = true) := by
+  induction l generalizing k with
+  | nil => simp [enumFrom]
+  | cons a r ih =>
+    simp only [enumFrom, List.map_cons]
+    refine List.Pairwise.cons ?_ (ih (k + 1) (by simp only [List.length_cons] at h; omega))
+    intro b hb
+    obtain ⟨ia, hia, rfl⟩ := List.mem_map.1 hb
+    have := enumFrom_mem (k + 1) r ia hia
+    simp only [List.length_cons] at h
+    exact keyLe_small ia.1 (by omega) k (by omega)
+
+theorem numbered_sorted {α} (f : α → PyTree) (l : List α) (h : l.length ≤ 10) :
+    sortK ((enumFrom 0 l).map fun ia => (Key.n ia.1, f ia.2))
+      = (enumFrom 0 l).map fun ia => (Key.n ia.1, f ia.2) := by
+  rw [sortK_eq]
+  exact List.Pairwise.insertionSort_eq (numbered_pairwise f 0 l (by omega))
 
 theorem enumFrom_snd {α} (k : Nat) (l : List α) : (enumFrom k l).map (·.2) = l := by
   induction l generalizing k with
   | nil => rfl
   | cons a r ih => simp [enumFrom, ih]
+
+theorem arr_roundtrip (a : Arr) (h : arrOK a) : readDS (.num a.dt a.shape a.vals) = .arr a := arr_stable a h
 
 /-! ### atoms and phases -/
 
@@ -132,18 +149,14 @@ theorem atom_round (a : AtomRec) (h : AtomWF a) : dict2atom (roundTree (atom2dic
     lookupK_sortK_mem (kS "occupancy") (.leaf (normVal (.scalar odt o))) _ (by simpa using hn) (by simp),
     lookupK_sortK_mem (kS "xyz") (.leaf (normVal (.arr xyz))) _ (by simpa using hn) (by simp),
     lookupK_sortK_mem (kS "U") (.leaf (normVal (.arr u))) _ (by simpa using hn) (by simp)]
-  simp [str_stable _ h.el, str_stable _ h.label, arr_stable _ h.xyz, arr_stable _ h.u, normVal]
+  rw [str_stable _ h.el, str_stable _ h.label, arr_stable _ h.xyz, arr_stable _ h.u]
+  rfl
 
 theorem atoms_round (atoms : List AtomRec) (h : ∀ a ∈ atoms, AtomWF a) (hl : atoms.length ≤ 10) :
     (sortK (roundItems ((enumFrom 0 atoms).map fun (ia : Nat × AtomRec) => (Key.n ia.1, atom2dict ia.2)))).mapM
       (fun kv => dict2atom kv.2) = some atoms := by
-  have h1 : roundItems ((enumFrom 0 atoms).map fun (ia : Nat × AtomRec) => (Key.n ia.1, atom2dict ia.2))
-      = (enumFrom 0 (atoms.map fun a => roundTree (atom2dict a))).map fun (ia : Nat × PyTree) => (Key.n ia.1, ia.2) := by
-    rw [roundItems_map (enumFrom 0 atoms) (fun ia => Key.n ia.1) (fun ia => atom2dict ia.2),
-      ← enumFrom_map_snd (fun a => roundTree (atom2dict a)) 0 atoms, List.map_map]
-    rfl
-  rw [h1, enumFrom_map_sorted _ (by simpa using hl)]
-  rw [← enumFrom_map_snd (fun a => roundTree (atom2dict a)) 0 atoms, List.map_map]
+  rw [roundItems_map (enumFrom 0 atoms) (fun ia => Key.n ia.1) (fun ia => atom2dict ia.2),
+    numbered_sorted (fun a => roundTree (atom2dict a)) atoms hl]
   have := mapM_map_eq_some (enumFrom 0 atoms)
     (fun ia : Nat × AtomRec => (Key.n ia.1, roundTree (atom2dict ia.2)))
     (fun kv : Key × PyTree => dict2atom kv.2) (fun ia => ia.2)
@@ -152,6 +165,322 @@ theorem atoms_round (atoms : List AtomRec) (h : ∀ a ∈ atoms, AtomWF a) (hl :
         have := List.mem_map_of_mem (f := (·.2)) hia
         rwa [enumFrom_snd] at this
       exact atom_round ia.2 (h ia.2 hm))
-  simpa [enumFrom_snd, Function.comp] using this
+  rw [this, enumFrom_snd]
+
+theorem noneStr_ascii : asciiStr noneStr := by decide
+
+theorem encodeSg_stable (intDt : Nat) (sg : Option Nat) : normVal (encodeSg intDt sg) = encodeSg intDt sg := by
+  cases sg with
+  | none => exact str_stable _ noneStr_ascii
+  | some n => rfl
+theorem decode_encodeSg (intDt : Nat) (sg : Option Nat) : decodeSg (encodeSg intDt sg) = some sg := by
+  cases sg with
+  | none => simp [encodeSg, decodeSg]
+  | some n => simp [encodeSg, decodeSg]
+theorem decode_encodePg (pg : Option Str) (h : ∀ g, pg = some g → g ≠ noneStr) : decodePg (encodePg pg) = pg := by
+  cases pg with
+  | none => simp [encodePg, decodePg]
+  | some g => simp [encodePg, decodePg, h g rfl]
+theorem encodePg_ascii (pg : Option Str) (h : ∀ g, pg = some g → asciiStr g) : asciiStr (encodePg pg) := by
+  cases pg with
+  | none => exact noneStr_ascii
+  | some g => exact h g rfl
+
+theorem phase_round (T : PhaseTables) (intDt : Nat) (p : PhaseRec) (h : PhaseWF T p) :
+    dict2phase T p.id (roundTree (phase2dict intDt p)) = some p := by
+  have hn5 : ([kS "name", kS "space_group", kS "point_group", kS "color", kS "structure"]).Nodup := by decide
+  have hn2 : ([kS "lattice", kS "atoms"]).Nodup := by decide
+  have hn2' : ([kS "abcABG", kS "baserot"]).Nodup := by decide
+  obtain ⟨id, name, sg, pg, color, abc, br, atoms⟩ := p
+  have hat := atoms_round atoms h.atoms h.natoms
+  have hsym : mkPhase T sg pg = some (sg, pg) := h.sym
+  have hpgs : normVal (.str (encodePg pg)) = .str (encodePg pg) :=
+    str_stable _ (encodePg_ascii pg (fun g hg => (h.pgName g hg).1))
+  have hdp : decodePg (encodePg pg) = pg := decode_encodePg pg (fun g hg => (h.pgName g hg).2)
+  simp only [phase2dict, structure2dict, roundTree, roundItems, dict2phase, getDict]
+  rw [lookupK_sortK_mem (kS "name") (.leaf (normVal (.str name))) _ (by simpa using hn5) (by simp),
+    lookupK_sortK_mem (kS "space_group") (.leaf (normVal (encodeSg intDt sg))) _ (by simpa using hn5) (by simp),
+    lookupK_sortK_mem (kS "point_group") (.leaf (normVal (.str (encodePg pg)))) _ (by simpa using hn5) (by simp),
+    lookupK_sortK_mem (kS "color") (.leaf (normVal (.str color))) _ (by simpa using hn5) (by simp),
+    lookupK_sortK_mem (kS "structure")
+      (.dict (sortK [(kS "lattice", .dict (sortK [(kS "abcABG", .leaf (normVal (.arr abc))),
+                                                   (kS "baserot", .leaf (normVal (.arr br)))])),
+                     (kS "atoms", .dict (sortK (roundItems
+                        ((enumFrom 0 atoms).map fun x => (Key.n x.1, atom2dict x.2)))))]))
+      _ (by simpa using hn5) (by simp)]
+  rw [str_stable _ h.name, str_stable _ h.color, hpgs, encodeSg_stable]
+  simp only [Option.bind_some, getDict, decode_encodeSg, hdp]
+  rw [lookupK_sortK_mem (kS "lattice")
+      (.dict (sortK [(kS "abcABG", .leaf (normVal (.arr abc))), (kS "baserot", .leaf (normVal (.arr br)))]))
+      _ (by simpa using hn2) (by simp),
+    lookupK_sortK_mem (kS "atoms")
+      (.dict (sortK (roundItems ((enumFrom 0 atoms).map fun x => (Key.n x.1, atom2dict x.2)))))
+      _ (by simpa using hn2) (by simp)]
+  simp only [Option.bind_some, getDict]
+  rw [lookupK_sortK_mem (kS "abcABG") (.leaf (normVal (.arr abc))) _ (by simpa using hn2') (by simp),
+    lookupK_sortK_mem (kS "baserot") (.leaf (normVal (.arr br))) _ (by simpa using hn2') (by simp)]
+  rw [arr_stable _ h.abc, arr_stable _ h.baserot, hat]
+  simp [hsym, getArr]
+
+/-! ### the phase list -/
+
+theorem dict2phases_eq_mapM (T : PhaseTables) (l : List (Key × PyTree)) :
+    dict2phases T l = l.mapM fun kv => match kv.1 with
+      | .n i => dict2phase T i kv.2
+      | .s _ => none := by
+  induction l with
+  | nil => rfl
+  | cons e r ih =>
+    obtain ⟨k, d⟩ := e
+    cases k with
+    | s name => simp [dict2phases]
+    | n i =>
+      simp only [dict2phases, ih, List.mapM_cons]
+      cases dict2phase T i d <;> simp
+      rename_i p
+      cases List.mapM (fun kv : Key × PyTree => match kv.1 with
+        | .n i => dict2phase T i kv.2
+        | .s _ => none) r <;> simp
+
+theorem insertRecById_eq (p : PhaseRec) (l : List PhaseRec) :
+    insertRecById p l = List.orderedInsert (fun a b : PhaseRec => a.id ≤ b.id) p l := by
+  induction l with
+  | nil => rfl
+  | cons q r ih => simp [insertRecById, List.orderedInsert, ih]
+
+theorem sortRecById_eq (l : List PhaseRec) :
+    sortRecById l = List.insertionSort (fun a b : PhaseRec => a.id ≤ b.id) l := by
+  induction l with
+  | nil => rfl
+  | cons p r ih =>
+    have : sortRecById (p :: r) = insertRecById p (sortRecById r) := rfl
+    rw [this, ih, insertRecById_eq]; rfl
+
+instance : Std.Total (fun a b : PhaseRec => a.id ≤ b.id) := ⟨fun a b => le_total a.id b.id⟩
+instance : IsTrans PhaseRec (fun a b : PhaseRec => a.id ≤ b.id) := ⟨fun _ _ _ h1 h2 => le_trans h1 h2⟩
+
+theorem eq_of_perm_of_map_eq {α β} (f : α → β) (l : List α) :
+    ∀ (S : List α), S.Perm l → S.map f = l.map f → (l.map f).Nodup → S = l := by
+  induction l with
+  | nil => intro S hp _ _; exact hp.eq_nil
+  | cons a r ih =>
+    intro S hp hm hn
+    cases S with
+    | nil => exact absurd hp.symm.eq_nil (by simp)
+    | cons s S' =>
+      simp only [List.map_cons, List.cons.injEq] at hm
+      have hs : s ∈ a :: r := hp.subset (by simp)
+      have hsa : s = a := by
+        rcases List.mem_cons.1 hs with h | h
+        · exact h
+        · exfalso
+          have : f a ∈ r.map f := hm.1 ▸ List.mem_map_of_mem h
+          exact (List.nodup_cons.1 hn).1 this
+      subst hsa
+      rw [ih S' (List.Perm.cons_inv hp) hm.2 (List.nodup_cons.1 hn).2]
+
+/-- sorting any permutation of a phase list with strictly increasing ids gives the list -/
+theorem sortRecById_perm (l R : List PhaseRec) (hp : R.Perm l) (hs : (l.map (·.id)).Pairwise (· < ·)) :
+    sortRecById R = l := by
+  rw [sortRecById_eq]
+  have h1 : (List.insertionSort (fun a b : PhaseRec => a.id ≤ b.id) R).Perm l :=
+    (List.perm_insertionSort _ R).trans hp
+  have h2 : (List.insertionSort (fun a b : PhaseRec => a.id ≤ b.id) R).Pairwise (fun a b => a.id ≤ b.id) :=
+    List.pairwise_insertionSort _ R
+  have h3 : ((List.insertionSort (fun a b : PhaseRec => a.id ≤ b.id) R).map (·.id)).Pairwise (· ≤ ·) :=
+    List.pairwise_map.2 h2
+  have h4 : (l.map (·.id)).Pairwise (· ≤ ·) := hs.imp (fun h => le_of_lt h)
+  have h5 := List.Perm.eq_of_pairwise' h3 h4 (h1.map _)
+  have hn : (l.map (·.id)).Nodup := hs.imp (fun h => ne_of_lt h)
+  exact eq_of_perm_of_map_eq (·.id) l _ h1 h5 hn
+
+theorem phases_round (T : PhaseTables) (intDt : Nat) (phases : List PhaseRec)
+    (hwf : ∀ p ∈ phases, PhaseWF T p) (hs : (phases.map (·.id)).Pairwise (· < ·)) :
+    (dict2phases T (sortK (roundItems (phaseItems intDt phases)))).map sortRecById
+      = some phases := by
+  unfold phaseItems
+  rw [roundItems_map phases (fun p => Key.n p.id) (fun p => phase2dict intDt p), dict2phases_eq_mapM]
+  let G : PhaseRec → Key × PyTree := fun p => (Key.n p.id, roundTree (phase2dict intDt p))
+  let F : Key × PyTree → Option PhaseRec := fun kv => match kv.1 with
+    | .n i => dict2phase T i kv.2
+    | .s _ => none
+  have hFG : ∀ p ∈ phases, F (G p) = some p := fun p hp => phase_round T intDt p (hwf p hp)
+  have hperm : (sortK (phases.map G)).Perm (phases.map G) := sortK_perm _
+  have hall : ∀ x ∈ sortK (phases.map G), F x = some ((F x).getD default) := by
+    intro x hx
+    obtain ⟨p, hp, rfl⟩ := List.mem_map.1 (hperm.subset hx)
+    rw [hFG p hp]; rfl
+  have hm := mapM_eq_some_map F (fun x => (F x).getD default) _ hall
+  show (List.mapM F (sortK (phases.map G))).map sortRecById = some phases
+  rw [hm]
+  simp only [Option.map_some, Option.some.injEq]
+  apply sortRecById_perm _ _ _ hs
+  refine (hperm.map _).trans ?_
+  rw [List.map_map]
+  have : phases.map ((fun x => (F x).getD default) ∘ G) = phases.map id :=
+    List.map_congr_left (fun p hp => by simp [Function.comp, hFG p hp])
+  rw [this, List.map_id]
+
+/-! ### the whole map -/
+
+theorem clean_atom2dict (a : AtomRec) : clean (atom2dict a) = true := by
+  simp [atom2dict, clean, cleanItems]
+
+theorem clean_phase2dict (intDt : Nat) (p : PhaseRec) : clean (phase2dict intDt p) = true := by
+  have h1 : cleanItems ((enumFrom 0 p.atoms).map fun (ia : Nat × AtomRec) => (Key.n ia.1, atom2dict ia.2)) = true :=
+    cleanItems_map _ _ _ (fun ia _ => clean_atom2dict ia.2)
+  cases hsg : p.sg <;>
+    simp [phase2dict, structure2dict, clean, cleanItems, encodeSg, hsg, h1]
+
+theorem reserved_keys (e : Derived) (m : MapRec) : (reservedItems e m).map (·.1) = reservedData := rfl
+
+theorem data_items (T : PhaseTables) (ni : PhaseRec) (e : Derived) (m : MapRec) (hwf : H5WF T ni m) :
+    dictUpdate (reservedItems e m) (propItems m) = reservedItems e m ++ propItems m := by
+  apply dictUpdate_fresh
+  · intro x hx f hf heq
+    obtain ⟨p, hp, rfl⟩ := List.mem_map.1 hx
+    have : f.1 ∈ reservedData := by rw [← reserved_keys e m]; exact List.mem_map_of_mem hf
+    exact hwf.props_names p hp (by rw [heq] at this; exact this)
+  · have : (propItems m).map (·.1) = (m.props.map (·.name)).map Key.s := by
+      simp [propItems, List.map_map, Function.comp]
+    rw [this]
+    exact hwf.props_nodup.map (fun a b h => by cases h; rfl)
+
+theorem optArr_stable (intDt : Nat) (o : Option Arr) (h : ∀ a, o = some a → arrOK a) :
+    roundTree (optArr intDt o) = optArr intDt o ∧ getArr (optArr intDt o) = o := by
+  cases o with
+  | none => simp [optArr, roundTree, normVal, getArr]
+  | some a => simp [optArr, roundTree, arr_stable a (h a rfl), getArr]
+
+theorem propItems_round (T : PhaseTables) (ni : PhaseRec) (m : MapRec) (hwf : H5WF T ni m) :
+    roundItems (propItems m) = propItems m := by
+  unfold propItems
+  rw [roundItems_map m.props (fun p => Key.s p.name) (fun p => PyTree.leaf (.arr p.arr))]
+  exact List.map_congr_left (fun p hp => by simp [roundTree, arr_stable p.arr (hwf.props_arr p hp)])
+
+/-- the reader's view of a property dataset -/
+def toProp (kv : Key × PyTree) : PropRec :=
+  match kv with
+  | (Key.s name, .leaf (.arr a)) => ⟨name, a⟩
+  | _ => default
+
+/-- **C13 main theorem** (model): for every well-formed record the writer succeeds and the reader returns
+the record, with the properties as a permutation of the same (name, array) pairs. -/
+theorem read_write_main (T : PhaseTables) (ni : PhaseRec) (e : Derived) (m : MapRec) (hwf : H5WF T ni m)
+    (hid : arrOK e.idArr) :
+    ∃ t ps, write e m = some t ∧ ps.Perm m.props ∧ read T ni t = some { m with props := ps } := by
+  -- the tree is writable
+  have hclean : clean (crystalmap2dict e m) = true := by
+    have h1 : cleanItems (reservedItems e m ++ propItems m) = true := by
+      rw [cleanItems_append]
+      have : cleanItems (propItems m) = true := cleanItems_map _ _ _ (fun _ _ => rfl)
+      cases hy : m.y <;> cases hx : m.x <;> simp [reservedItems, cleanItems, clean, optArr, hy, hx, this]
+    have h2 : cleanItems (phaseItems e.intDt m.phases) = true :=
+      cleanItems_map _ _ _ (fun p _ => clean_phase2dict e.intDt p)
+    simp [crystalmap2dict, clean, cleanItems, data_items T ni e m hwf, h1, headerItems, h2]
+  obtain ⟨h, hw, hr⟩ := codec_tree _ hclean
+  -- data group
+  have hkeys : ((reservedItems e m ++ propItems m).map (·.1)).Nodup := by
+    rw [List.map_append, reserved_keys]
+    refine List.nodup_append.2 ⟨by decide, ?_, ?_⟩
+    · have : (propItems m).map (·.1) = (m.props.map (·.name)).map Key.s := by
+        simp [propItems, List.map_map, Function.comp]
+      rw [this]
+      exact hwf.props_nodup.map (fun a b h => by cases h; rfl)
+    · intro a ha b hb hab
+      subst hab
+      obtain ⟨x, hx, rfl⟩ := List.mem_map.1 hb
+      obtain ⟨p, hp, rfl⟩ := List.mem_map.1 hx
+      exact hwf.props_names p hp ha
+  have hy := optArr_stable e.intDt m.y hwf.y
+  have hx := optArr_stable e.intDt m.x hwf.x
+  have hround : roundItems (reservedItems e m ++ propItems m) = reservedItems e m ++ propItems m := by
+    rw [roundItems_append, propItems_round T ni m hwf]
+    congr 1
+    simp [reservedItems, roundItems, hy.1, hx.1, roundTree,
+      arr_stable _ (arrOK_of_squeeze _ hwf.phi1), arr_stable _ (arrOK_of_squeeze _ hwf.phi),
+      arr_stable _ (arrOK_of_squeeze _ hwf.phi2), arr_stable _ hwf.phaseId, arr_stable _ hwf.inData, normVal]
+    exact ⟨arr_roundtrip _ (arrOK_of_squeeze _ hwf.phi1), arr_roundtrip _ (arrOK_of_squeeze _ hwf.phi),
+      arr_roundtrip _ (arrOK_of_squeeze _ hwf.phi2), arr_roundtrip _ hwf.phaseId, arr_roundtrip _ hid,
+      arr_roundtrip _ hwf.inData⟩
+  -- lookups in the data group
+  have hD : ∀ k v, (k, v) ∈ reservedItems e m →
+      lookupK k (sortK (reservedItems e m ++ propItems m)) = some v :=
+    fun k v hm => lookupK_sortK_mem k v _ hkeys (List.mem_append_left _ hm)
+  have hrest : ((sortK (reservedItems e m ++ propItems m)).filter
+      fun kv => !reservedData.contains kv.1).Perm (propItems m) := by
+    refine ((sortK_perm (reservedItems e m ++ propItems m)).filter _).trans ?_
+    rw [List.filter_append]
+    have h1 : (reservedItems e m).filter (fun kv => !reservedData.contains kv.1) = [] := by
+      rw [List.filter_eq_nil_iff]
+      intro kv hkv
+      have : kv.1 ∈ reservedData := by rw [← reserved_keys e m]; exact List.mem_map_of_mem hkv
+      simp [this]
+    have h2 : (propItems m).filter (fun kv => !reservedData.contains kv.1) = propItems m := by
+      rw [List.filter_eq_self]
+      intro kv hkv
+      obtain ⟨p, hp, rfl⟩ := List.mem_map.1 hkv
+      simp [hwf.props_names p hp]
+    rw [h1, h2]; simp
+  have hprops : ((sortK (reservedItems e m ++ propItems m)).filter
+        fun kv => !reservedData.contains kv.1).mapM propOf
+      = some (((sortK (reservedItems e m ++ propItems m)).filter
+        fun kv => !reservedData.contains kv.1).map toProp) := by
+    apply mapM_eq_some_map
+    intro kv hkv
+    obtain ⟨p, hp, rfl⟩ := List.mem_map.1 (hrest.subset hkv)
+    rfl
+  have hps : (((sortK (reservedItems e m ++ propItems m)).filter
+        fun kv => !reservedData.contains kv.1).map toProp).Perm m.props := by
+    refine (hrest.map toProp).trans ?_
+    have : (propItems m).map toProp = m.props := by
+      unfold propItems
+      rw [List.map_map]
+      conv_rhs => rw [← List.map_id m.props]
+      exact List.map_congr_left (fun p _ => rfl)
+    rw [this]
+  -- header group
+  have hHkeys : ((roundItems (headerItems e m)).map (·.1)).Nodup := by
+    simp only [headerItems, roundItems, List.map_cons, List.map_nil]
+    decide
+  have hunit : lookupK (kS "scan_unit") (sortK (roundItems (headerItems e m))) = some (.leaf (.str m.scanUnit)) := by
+    apply lookupK_sortK_mem _ _ _ hHkeys
+    simp [headerItems, roundItems, roundTree, str_stable _ hwf.unit]
+  have hphd : lookupK (kS "phases") (sortK (roundItems (headerItems e m)))
+      = some (.dict (sortK (roundItems (phaseItems e.intDt m.phases)))) := by
+    apply lookupK_sortK_mem _ _ _ hHkeys
+    simp [headerItems, roundItems, roundTree]
+  have hpl := phases_round T e.intDt m.phases hwf.phases hwf.phases_sorted
+  refine ⟨storeTree h, _, by simp [write, hw], hps, ?_⟩
+  have htop : roundTree (crystalmap2dict e m)
+      = .dict (sortK [(kS "data", .dict (sortK (reservedItems e m ++ propItems m))),
+                      (kS "header", .dict (sortK (roundItems (headerItems e m))))]) := by
+    simp only [crystalmap2dict, roundTree, roundItems, data_items T ni e m hwf, hround]
+  have hk2 : ([(kS "data", PyTree.dict (sortK (reservedItems e m ++ propItems m))),
+               (kS "header", PyTree.dict (sortK (roundItems (headerItems e m))))].map (·.1)).Nodup := by
+    simp only [List.map_cons, List.map_nil]; decide
+  cases hpl0 : dict2phases T (sortK (roundItems (phaseItems e.intDt m.phases))) with
+  | none => simp [hpl0] at hpl
+  | some pl0 =>
+    simp only [hpl0, Option.map_some, Option.some.injEq] at hpl
+    simp only [read, hr, htop, dict2crystalmap, getDict, Option.bind_some]
+    rw [lookupK_sortK_mem (kS "data") (.dict (sortK (reservedItems e m ++ propItems m))) _ hk2 (by simp),
+      lookupK_sortK_mem (kS "header") (.dict (sortK (roundItems (headerItems e m)))) _ hk2 (by simp)]
+    simp only [Option.bind_some, getDict]
+    rw [hD (kS "phi1") (.leaf (.arr m.phi1)) (by simp [reservedItems]),
+      hD (kS "Phi") (.leaf (.arr m.phi)) (by simp [reservedItems]),
+      hD (kS "phi2") (.leaf (.arr m.phi2)) (by simp [reservedItems]),
+      hD (kS "phase_id") (.leaf (.arr m.phaseId)) (by simp [reservedItems]),
+      hD (kS "is_in_data") (.leaf (.arr m.inData)) (by simp [reservedItems]),
+      hD (kS "y") (optArr e.intDt m.y) (by simp [reservedItems]),
+      hD (kS "x") (optArr e.intDt m.x) (by simp [reservedItems]),
+      hD (kS "id") (.leaf (.arr e.idArr)) (by simp [reservedItems]), hunit, hphd]
+    simp only [Option.bind_some, getDict, getArr, getStr, hpl0, hwf.phi1, hwf.phi, hwf.phi2]
+    rw [hprops]
+    simp only [hpl, hwf.phases_consistent]
+    have hy2 : getArr (optArr e.intDt m.y) = m.y := hy.2
+    have hx2 : getArr (optArr e.intDt m.x) = m.x := hx.2
+    unfold getArr at hy2 hx2
+    simp only [hy2, hx2]
 
 end Orix.Codec.H5
